@@ -386,6 +386,19 @@ def map_case(ctx, cs, answers=None):
     st = {}
 
     def mkmap(gvals, kind):
+        if cs.get("rows") == "unsorted" and gvals is gen:
+            # the declared map given as UNSORTED records (positions out of order inside chromosomes, chromosomes interleaved),
+            # constructed without automatic grouping, spline built explicitly
+            nrow = len(M["chr"])
+            order = list(range(nrow - 1, -1, -2)) + list(range(nrow - 2, -1, -2))      # e.g. 4,2,0,3,1
+            col = lambda v, dt: numpy.array([v[i] for i in order], dtype=dt)
+            kw2 = dict(vrnt_chrgrp=col(M["chr"], "int64"), vrnt_phypos=col(M["phy"], "int64"), vrnt_genpos=col(gvals, "float64"),
+                       auto_group=False, auto_build_spline=False)
+            if kind == "Extended":
+                kw2["vrnt_stop"] = col(M["phy"], "int64")
+            gmu = (ExtendedGeneticMap if kind == "Extended" else StandardGeneticMap)(**kw2)
+            gmu.build_spline()
+            return gmu
         if kind == "Extended":
             return ExtendedGeneticMap(vrnt_chrgrp=numpy.array(M["chr"], dtype="int64"), vrnt_phypos=numpy.array(M["phy"], dtype="int64"),
                                       vrnt_stop=numpy.array(M["phy"], dtype="int64"), vrnt_genpos=numpy.array(gvals, dtype="float64"))
@@ -477,13 +490,15 @@ def map_case(ctx, cs, answers=None):
             key = res["prov"][0]
             dist[key] = dist.get(key, 0) + ch.weight
             ctx.outcome(digest(("map", key)))
-            ctx.nontriv(digest(("map", cs["map"], cs["mapfn"], cs["fn"], cs.get("gmap"), cs.get("labels", 0), cs.get("pre"), case["answers"])))
+            ctx.nontriv(digest(("map", cs["map"], cs["mapfn"], cs["fn"], cs.get("gmap"), cs.get("labels", 0), cs.get("pre"), cs.get("rows"), case["answers"])))
         else:
             complete = False
-    ctx.state(digest(("map", cs["map"], cs["mapfn"], cs["fn"], cs.get("gmap"), cs.get("labels", 0), cs.get("pre"))))
+    ctx.state(digest(("map", cs["map"], cs["mapfn"], cs["fn"], cs.get("gmap"), cs.get("labels", 0), cs.get("pre"), cs.get("rows"))))
     ctx.count("map:configs")
     if cs.get("pre"):
         ctx.count(f"map:pre-existing-positions:{cs['pre']}")
+    if cs.get("rows"):
+        ctx.count(f"map:unsorted-ungrouped-map-records:{cs.get('gmap', 'Standard')}")
     if len(st["starts"]) > 1 and any(b - a != 1 for a, b in zip(sorted(set(M["mchr"])), sorted(set(M["mchr"]))[1:])):
         ctx.count(f"map:non-consecutive-chromosome-labels:{cs.get('gmap', 'Standard')}")
     if answers is not None or not complete:
@@ -527,6 +542,10 @@ def map_cases(tier, seed):
                         continue
                     out.append(dict(part="map", map=mi, mapfn=mf, fn="mat_meiosis", gmap=gk, labels=li, seed=seed,
                                     _cost=2 ** len(MAPS[mi]["mchr"])))
+            # the map given as unsorted records, auto_group=False + explicit build_spline(), both map classes (all seeds)
+            for gi, gk in enumerate(("Standard", "Extended")):
+                out.append(dict(part="map", map=mi, mapfn=mf, fn="mat_meiosis", gmap=gk, labels=(1, 0)[gi], rows="unsorted",
+                                seed=seed, _cost=2 ** len(MAPS[mi]["mchr"])))
             # matrices that already carry genetic positions / crossover probabilities (from construction, from an earlier
             # interp_genpos or interp_xoprob on another map A, with the same or the other map function): the map passed
             # LAST decides (all seeds)
@@ -557,7 +576,10 @@ def cross_case(ctx, cs, answers=None):
         h = MeiosisHandler(ch, xop, mode="classes")
         try:
             prot = cls(rng=ScriptedGenerator(h))
-            out = prot.mate(pg, xc, nm, npg, nself=nself)
+            if cs.get("miscout"):
+                out = prot.mate(pg, xc, nm, npg, miscout={}, nself=nself)
+            else:
+                out = prot.mate(pg, xc, nm, npg, nself=nself)
             exc = None
         except Exception as ex:
             out, exc = None, ex
@@ -591,6 +613,8 @@ def cross_case(ctx, cs, answers=None):
             ctx.sample(dict(case, weight=str(ch.weight), progeny=[[["%d.%d.%d" % c for c in cp] for cp in p] for p in res["key"]]))
     ctx.state(digest((proto, cs["xconfig"], cs["xop"], nm, npg, nself)))
     ctx.count(f"cross:{proto}:configs")
+    if cs.get("miscout"):
+        ctx.count("cross:configs-with-miscout-dict")
     if answers is not None or not complete:
         return
 
@@ -648,7 +672,7 @@ def cross_cases(tier, seed):
         cost = 2 ** (rows * free)
         assert cost <= 2 ** 18, (proto, xop, cost)
         out.append(dict(part="cross", proto=proto, layout=list(layout), xop=list(xop), xconfig=list(xconfig), nmating=nm,
-                        nprogeny=npg, nself=nself, seed=seed, _cost=cost * 8))
+                        nprogeny=npg, nself=nself, miscout=(len(out) % 2 == 1), seed=seed, _cost=cost * 8))
 
     x3 = [0.5, q, 0.5]
     x3b = [0.5, q, 1.0]
@@ -950,6 +974,8 @@ def finalize(ctx, tier, seed):
         assert c.get(f"map:non-consecutive-chromosome-labels:{gk}", 0) > 0, gk
     for pre in ("construct", "genposA", "mapA", "mapA-otherfn"):
         assert c.get(f"map:pre-existing-positions:{pre}", 0) > 0, pre
+    for gk in ("Standard", "Extended"):
+        assert c.get(f"map:unsorted-ungrouped-map-records:{gk}", 0) > 0, gk
     assert c.get("embv:configs", 0) > 0
     for f in ("embv:homozygous-first-marker", "embv:homozygous-between-heterozygous", "embv:all-heterozygous"):
         assert f in ctx.flags, f
